@@ -367,6 +367,28 @@ func (ra *recAdb) Suicide(a common.Address)           { ra.do(func(x *account.Ac
 func (ra *recAdb) IntermediateRoot() {
 	ra.do(func(x *account.AccountDB) { x.IntermediateRoot(true) })
 }
+// Peek: what block execution does to accounts it only looks at (zero-value call,
+// contract check, nonce check of a sender whose transaction is then rejected): the
+// account object is loaded into the AccountDB but neither modified nor are its slots read.
+func (ra *recAdb) Peek(a common.Address, how int) {
+	ra.do(func(x *account.AccountDB) {
+		switch how % 6 {
+		case 0:
+			x.Exist(a)
+		case 1:
+			x.GetNonce(a)
+		case 2:
+			x.GetCodeSize(a)
+		case 3:
+			x.GetCodeHash(a)
+		case 4:
+			x.HasSuicided(a)
+		default:
+			x.Empty(a)
+		}
+	})
+}
+
 func (ra *recAdb) Snapshot() int {
 	id := ra.adb.Snapshot()
 	ids := ra.ids
@@ -901,6 +923,15 @@ func (w *world) block(p blockPlan) {
 			r.stats["accessor_panics"]++
 			r.step("!! " + res)
 		}
+		if len(w.addrs) > 0 && rg.Chance(1, 3) {
+			// read-only look at some existing account (NOT recorded as touched: its slots are
+			// not read before the commit, so it stays a loaded-but-clean object)
+			a := w.addrs[rg.Intn(len(w.addrs))]
+			how := rg.Intn(6)
+			hx.Guard(func() string { ra.Peek(a, how); return "" })
+			r.stats["peeks"]++
+			r.step(fmt.Sprintf("peek(%d) %x", how, a[:]))
+		}
 		if p.interRt && rg.Chance(1, 4) {
 			ra.IntermediateRoot()
 			r.step("IntermediateRoot(true)")
@@ -1107,8 +1138,15 @@ func (w *world) commitFrom(adb *account.AccountDB, touched map[common.Address]bo
 				r.violate("read-differs-after-reopen", fmt.Sprintf("root %x: %s (value read before the commit vs cold reopen)", root[:4], d))
 			}
 		}
-		if d := w.indepCheck(disk, root, warm, 25); d != "" {
+		if d := w.indepCheck(disk, root, warm, 25, 0); d != "" {
 			r.violate("independent-reader-differs", fmt.Sprintf("root %x read from the store with an independent trie walk: %s", root[:4], d))
+		}
+		if !p.skipRead {
+			// … and over accounts the block did not modify (expectations from earlier blocks):
+			// a commit must not change what it was not asked to change
+			if d := w.indepCheck(disk, root, exp, 40, int(root[1])*7+int(root[2])); d != "" {
+				r.violate("independent-reader-differs", fmt.Sprintf("root %x read from the store with an independent trie walk (accounts incl. ones this block did not modify): %s", root[:4], d))
+			}
 		}
 		if d := w.apiCheck(disk, root, warm, 0); d != "" {
 			r.violate("warm-read-differs-after-reopen", fmt.Sprintf("root %x: %s (committing AccountDB after state.Commit vs cold reopen)", root[:4], d))
